@@ -361,3 +361,53 @@ def rule_product(db: ProgramDB) -> List[Instance]:
         out.append(inst("PRODUCT", HOLDS if k == "product" else (VIOLATION if k == "lockstep" else UNDECIDED), gc,
                         "utils.generate_combinations", why))
     return out
+
+
+# ---------------------------------------------------------------------------------- DEDUP-KEY
+def _key_additions(fn: FuncInfo) -> Set[Tuple[str, str]]:
+    """(child side, operand whose _unique_variables_ are added) pairs of a _required_variables_from_child_ body."""
+    adds: Set[Tuple[str, str]] = set()
+    for n in own_nodes(fn.node):
+        if isinstance(n, ast.If):
+            t = unparse(n.test)
+            for side in ("left", "right"):
+                if f"child is self.{side}" in t or f"self.{side} is child" in t:
+                    for c in ast.walk(ast.Module(body=n.body, type_ignores=[])):
+                        if isinstance(c, ast.Call) and call_attr(c) in ("update", "add", "union"):
+                            for a in c.args:
+                                for x in ast.walk(a):
+                                    if isinstance(x, ast.Attribute) and x.attr == "_unique_variables_" and \
+                                            isinstance(x.value, ast.Attribute) and isinstance(x.value.value, ast.Name) \
+                                            and x.value.value.id == "self" and x.value.attr in ("left", "right"):
+                                        adds.add((side, x.value.attr))
+    return adds
+
+
+def rule_dedup_key(db: ProgramDB) -> List[Instance]:
+    """Duplicate suppression keys a child's rows on the variables its ancestors require.  A binary operator evaluates its
+    right operand under each row of the left one, so the rows it requires from its LEFT child must be keyed by the RIGHT
+    operand's variables too: two left rows that agree on what the ancestors need but differ on a variable the right side
+    constrains are not duplicates."""
+    out = []
+    bo = db.cls("BinaryOperator")
+    impls = []
+    for c in bo.all_subclasses():
+        m = c.methods.get("_required_variables_from_child_")
+        if m is not None:
+            impls.append(m)
+    if not impls:
+        raise AnalysisError("no _required_variables_from_child_ on BinaryOperator subclasses")
+    for m in sorted(impls, key=lambda f: f.qualname):
+        adds = _key_additions(m)
+        calls_super = any(isinstance(n, ast.Call) and call_attr(n) == "_required_variables_from_child_" and
+                          isinstance(n.func.value, ast.Call) and isinstance(n.func.value.func, ast.Name)
+                          and n.func.value.func.id == "super" for n in own_nodes(m.node))
+        ok = ("left", "right") in adds or calls_super
+        bad_extra = ("right", "right") in adds or ("left", "left") in adds
+        out.append(inst("DEDUP-KEY", HOLDS if ok and not bad_extra else VIOLATION, m, f"{m.short}[left child keyed by right operand]",
+                        f"key additions {sorted(adds)}{' + inherited' if calls_super else ''}: the left child's rows are keyed by the "
+                        f"right operand's variables" if ok and not bad_extra else
+                        f"key additions {sorted(adds)}: the rows required from the left child are not keyed by the right "
+                        f"operand's variables, so a left row that differs only on a variable the right operand constrains is "
+                        f"suppressed as a duplicate and its join partners are lost"))
+    return out
